@@ -65,12 +65,18 @@ CLAIMS = {
     "(i, j) comes with the mark at (j, i) under the same condition (symmetric adjacency), in the closed-form branches and in the "
     "generic Jacobian-row scan; a contact row marks exactly the pair of trees of its two geoms' bodies with static bodies dropped "
     "(cross edge in both directions, self edge of the dynamic tree, nothing for two static bodies) and no other tree; DOF "
-    "friction-loss and joint-limit rows mark the self edge of their tree.",
-    "note": _BASE + "NOT covered: that _flood_fill's labels are the connected components of the marked graph numbered by smallest tree "
-    "(a reachability property of a stack-based traversal), that compute_island_mapping's dof / constraint maps are mutually inverse "
-    "permutations consistent with the per-island counts, and which trees the generic scan marks for tendon / joint-equality / flex "
-    "rows (only its symmetry is proved).",
-    "design_ref": "DESIGN.md 3 (C28), 12.12",
+    "friction-loss and joint-limit rows mark the self edge of their tree. Flood fill, island._flood_fill (the real kernel, Hoare "
+    "rule with quantified invariants on its four loops, wpv/hoare.py; unbounded in the number of trees): given labels -1 and a "
+    "symmetric adjacency (both established at the launch site / by the edge group), on exit two trees joined by an edge have the "
+    "same island, every tree with an edge has an island, a tree without any edge has none, labels lie in [0, nisland), and labels "
+    "once written are never changed; the launch site binds the aliased arrays as the contract assumes, fills the labels with -1 and "
+    "runs one thread per world. island._island_scan_sizes (same rule): the island dof / constraint offsets satisfy adr[0] = 0, "
+    "adr[k] = adr[k-1] + count[k-1] (exclusive prefix sums), nidof is the total, and the counts are reset to 0 for the recount.",
+    "note": _BASE + "NOT covered: that two trees in the same island are CONNECTED (no over-merging; needs a reachability witness) and "
+    "the numbering by smallest tree; that the DFS stack of ntree*ntree slots suffices; the dof / constraint maps of compute_island_mapping beyond the offsets (atomically allocated positions); "
+    "which trees the generic scan marks for tendon / joint-equality / flex rows (only its symmetry is proved). When a flood-fill "
+    "obligation is not proved, the real flood_fill is run on all 99402 graphs with up to 5 (6: off-diagonal) trees to find a failing input.",
+    "design_ref": "DESIGN.md 3 (C28), 12.12, 12.13",
   },
   "C29": {
     "text": "The local, per-tree rules of the statement as contracts on the real kernels: sleep._sweep_awake_trees (run against an "
@@ -108,11 +114,17 @@ CLAIMS = {
     "_ray_quad (a > 0) returns -1 or a non-negative root of a*x^2+2*b*x+c, the smallest non-negative one, and -1 with a real "
     "discriminant means both roots are negative; ray_sphere, run against that contract, returns a point on the sphere with the unit "
     "outward normal there (so, with the quad contract, the nearest intersection along the ray); ray_plane returns a point on the "
-    "plane inside the rendered rectangle, only for rays heading to the front face, with the plane's z axis as normal.",
-    "note": _BASE + "Exact over the reals; ray direction non-zero. NOT covered: agreement with mujoco.mj_ray (numeric oracle), the "
-    "capsule / ellipsoid / cylinder / box / mesh / height-field / flex intersections, the nearest-hit reduction over geoms in _ray "
+    "plane inside the rendered rectangle, only for rays heading to the front face, with the plane's z axis as normal. ray_capsule, "
+    "run against contracts of _ray_map (verified: the local ray is R^T(pnt - pos), R^T vec), ray_sphere and _ray_quad (both roots: "
+    "ordered, with the sum and product of the quadratic, each a root; verified against the body): a reported distance is -1 or >= 0; "
+    "a reported hit lies on the cylinder side between the caps or on the outer half of a cap sphere; every point of the ray (y >= 0) on "
+    "the outer half of a cap sphere is a hit and the reported distance is not beyond it (nearest-hit for the caps, from inside and "
+    "outside). The nonlinear argument is cut into identities, one abstract root lemma and structural steps, each an obligation.",
+    "note": _BASE + "Exact over the reals; ray direction non-zero. NOT covered: agreement with mujoco.mj_ray (numeric oracle), nearest-hit "
+    "for the capsule's cylinder side and its normal, the "
+    "ellipsoid / cylinder / box / mesh / height-field / flex intersections, the nearest-hit reduction over geoms in _ray "
     "(tile reduction) and the BVH path (wp.bvh_* intrinsics), and the MJ_MINVAL slivers of _ray_quad and ray_plane.",
-    "design_ref": "DESIGN.md 3 (C34), 12.12",
+    "design_ref": "DESIGN.md 3 (C34), 12.12, 12.13",
   },
   "C36": {
     "text": "A result can depend on process history only through state that outlives a call. Over the real source of every module: "
@@ -121,9 +133,11 @@ CLAIMS = {
     "everything the produced kernel depends on is distinguished by the cache key (value-typed parameters, lists built by the caller and "
     "hashed by content, sized objects used only through .size, unique factory names, no module-level mutable object read). Found and "
     "repaired: the process-global primitive-collision dispatch lists. (G4) the cache_kernel wrapper itself is exercised natively on 11 "
-    "argument shapes -- a bounded stand-in, not counted as proved.",
+    "argument shapes -- a bounded stand-in, not counted as proved. (G5) bounded native probe: forward() on a fresh Data after NaN-filled "
+    "arrays were freed, three configurations; with sleeping enabled and a sparse Jacobian the result depends on the freed memory "
+    "(known finding D15, recorded, not repaired).",
     "note": _BASE + "Pure source analysis (no SMT needed: the obligations are about which objects are written / read). Warp's own module "
-    "cache and CUDA graph state are external. G4 is bounded.",
+    "cache and CUDA graph state are external. G4 and G5 are bounded.",
     "design_ref": "DESIGN.md 3 (C36)",
   },
   "C37": {
@@ -192,7 +206,12 @@ CLAIMS = {
     "design_ref": "DESIGN.md 3 (C18)",
   },
   "C19": {
-    "text": "The device side of the statement (what is done with a pair-table entry), as contracts on the real functions: "
+    "text": "The pair table: the vectorised numpy slice of io.put_model that computes Model.nxn_pairid[:, 0] (the real statements, "
+    "re-extracted every run and read pointwise for one symbolic geom pair g1 < g2, wpv/npflow.py) marks an ordinary pair kept (-1) "
+    "EXACTLY if the geoms pass the contype/conaffinity test (32-bit vectors), belong to different weld bodies, are not weld-parent and "
+    "weld-child with both non-world (unless parent filtering is disabled) and are not excluded, and -2 otherwise; afterwards the "
+    "column is changed only by the loop that stores explicit pair i at the position of (pair_geom1[i], pair_geom2[i]). "
+    "The device side (what is done with an entry), as contracts on the real functions: "
     "collision_core.write_contact allocates nothing for a filtered-out pair that no sensor asks for, reports a pair that is explicit "
     "or passed the filters whenever the geoms are within margin + gap, and sets the CONSTRAINT / SENSOR type bits exactly by those "
     "conditions; collision_core.contact_margin_gap and contact_material_params give an explicit pair the margin, gap, condim, "
@@ -200,8 +219,8 @@ CLAIMS = {
     "ordinary pair the sum of the geoms' margins / gaps and the condim / friction of the higher-priority geom (maximum on equal "
     "priority); at every place where the broadphase filter decides about a candidate pair, explicit pairs bypass it (the filters only "
     "know the geoms' margins). Found and repaired: explicit pairs with a margin larger than the geom margins lost their contact.",
-    "note": _BASE + "NOT covered: the pair table itself (Model.nxn_pairid is built by put_model's numpy code -- contype/conaffinity, "
-    "weld bodies, parent-child, excludes -- outside the dialect the verifier translates), that the broadphase kernels copy the table "
+    "note": _BASE + "Trusted: numpy's elementwise semantics of the operators in the slice and np.triu_indices enumerating g1 < g2 in the "
+    "order upper_tri_index addresses. NOT covered: the collision-sensor column, that the broadphase kernels copy the table "
     "entry unchanged (closure-built filter functions), and the solref / solimp mixing weights of ordinary pairs. The filter-bypass "
     "obligation is a source-level (AST) obligation.",
     "design_ref": "DESIGN.md 3 (C19), 12.9",
